@@ -9,6 +9,7 @@ import z3
 
 import processscheduler as ps
 
+from symx import formula
 from symx.formula import And, Or, Not, Implies, Sum, b2i, to_z3
 from symx.harness import Shape, Ob, Ctx, run_property
 from checks.common import make_task, new_problem, task_valid
@@ -197,6 +198,110 @@ def optional_constraints_shape(kind, n, m):
     return sh
 
 
+# ---- the optional flag is honoured by every constraint class ------------------------------------------------
+# Twin build (as in C06): the same small problem without the constraint and with the constraint declared
+# optional. Every schedule of the first must remain available in the second with the constraint unapplied.
+def _optional_classes():
+    import inspect
+    from checks import c18
+    from processscheduler.constraint import Constraint
+    out = []
+    for cname in sorted(dir(ps)):
+        cls = getattr(ps, cname)
+        if not (inspect.isclass(cls) and issubclass(cls, Constraint)) or cname in c18.SWEEP_SKIP:
+            continue
+        if (cname, "optional") in c18.SWEEP_ILL or "optional" not in cls.model_fields:
+            continue
+        if cname in ("TaskLoadBuffer", "TaskUnloadBuffer"):
+            continue  # declarations of buffer accesses rather than rules: what an unapplied access would mean is not documented
+        out.append(cname)
+    return out
+
+
+def _declare_optional(cname, with_constraint):
+    from checks import c18
+    cls = getattr(ps, cname)
+    e = c18._env()
+    if not with_constraint:
+        return e, None
+    req = [f for f, fi in cls.model_fields.items() if fi.is_required()]
+    kw = {r: c18.REQUIRED[r](e) for r in req}
+    if cname.startswith("OptionalTask"):
+        kw.update({k: e["o1"] for k in ("task", "task_2") if k in kw})
+    if cname == "IndicatorBounds":
+        kw["upper_bound"] = 0
+    if cname == "IndicatorTarget":
+        kw["value"] = 0
+    return e, cls(name="under_test", optional=True, **kw)
+
+
+def optional_flag_shape(cname):
+    name = f"optional_flag/{cname}"
+
+    def build(P):
+        pb0 = ps.SchedulingProblem(name="without", horizon=12)
+        _declare_optional(cname, False)
+        s0 = ps.SchedulingSolver(problem=pb0)
+        s0.initialize()
+        phi0 = list(s0._solver.assertions())
+        pb1 = ps.SchedulingProblem(name="with", horizon=12)
+        e, c = _declare_optional(cname, True)
+        return Ctx(problem=pb1, phi0=phi0, cst=c, named={"applied": c._applied})
+
+    def obligations(ctx):
+        phi1 = list(ctx.phi) + [Not(ctx.cst._applied)]
+        c0, _ = formula.constants(ctx.phi0)
+        c1, _ = formula.constants(phi1)
+        # shared observables: what both builds name alike (task dates, flags, busy intervals of plain workers, buffer
+        # levels); uid-named constants (selection flags, _applied) differ from build to build and stay existential
+        shared = [c for n, c in c1.items() if n in c0 and "_maybe_busy_" not in n]
+        from checks.common import buffer_witness
+        return [Ob(f"{PROP}/{name}/may_be_left_unapplied", "complete", valid=And(buffer_witness(list(ctx.phi0))), observables=shared, phi=phi1,
+                   transform=buffer_witness, replayer="checks.c10:replay_optional_flag")]
+
+    sh = Shape(name, build, obligations)
+    sh.grid = False
+    sh.cname = cname
+    return sh
+
+
+def replay_optional_flag(desc):
+    import symx.harness as H
+    from symx import engine
+    from symx.harness import quiet
+
+    shape = H.get_shape(desc["module"], desc["shape"])
+    w = desc["witness"]
+    res = {}
+    for with_c in (False, True):
+        with quiet():
+            pb = ps.SchedulingProblem(name="replay", horizon=12)
+            e, c = _declare_optional(shape.cname, with_c)
+            probe = ps.SchedulingSolver(problem=pb)
+            probe.initialize()
+            consts, _ = formula.constants(list(probe._solver.assertions()))
+            k = 0
+            for n, v in (w.get("pins") or {}).items():
+                if "!" in n or n not in consts or "_maybe_busy_" in n or n.startswith(("Selected_", "constraint_", "Indicator_")):
+                    continue
+                if not isinstance(v, (bool, int)) or not (z3.is_int(consts[n]) or z3.is_bool(consts[n])):
+                    continue
+                if z3.is_bool(consts[n]) != isinstance(v, bool):
+                    continue
+                ps.ConstraintFromExpression(name=f"__pin_{k}", expression=(consts[n] == (z3.BoolVal(v) if isinstance(v, bool) else v)))
+                k += 1
+            if with_c:
+                ps.ConstraintFromExpression(name="__unapplied", expression=z3.Not(c._applied))
+            res[with_c] = bool(ps.SchedulingSolver(problem=pb).solve())
+        engine.reset_z3_globals()
+    print(f"replay: pinned schedule: without the constraint -> {res[False]}; with the optional constraint left unapplied -> {res[True]}")
+    if res[False] and not res[True]:
+        print(f"CONFIRMED: {shape.cname}(optional=True) excludes a schedule although it is not applied")
+        return 1
+    return 0
+
+
+
 def expression_shape(which):
     name = f"expression/{which}"
 
@@ -278,6 +383,8 @@ def shapes(tier):
                 out.append(optional_constraints_shape(kind, n, m))
     for which in ("linear", "boolean", "distinct"):
         out.append(expression_shape(which))
+    for cname in _optional_classes():
+        out.append(optional_flag_shape(cname))
     # de-duplicate by name
     seen, res = set(), []
     for s in out:
